@@ -4,14 +4,10 @@
 
 package normalize
 
-// Both functions URL-unescape a rendered $ref and parse it again with url.Parse, ignoring the error: the bodies are
-// panic-free only if that second parse succeeds, which holds for renderings of parsed references without '%' (the
-// alphabet of the properties excludes '%'). Not verified: assumed, listed as a residual of C09.
+// Both functions URL-unescape a rendered $ref and parse it again with url.Parse.
 //@ func RebaseRef(baseRef, ref)
 //@   aspect safe
-//@   assumed
 //@   modifies nothing
 //@ func Path(ref, basePath)
 //@   aspect safe
-//@   assumed
 //@   modifies nothing
